@@ -192,12 +192,16 @@ def run(tier, seed):
                 jobs.append((name, W.POOL_QUICK, src,
                              ('yml',) if src == 'Loaded' else ('-',), seed, 5))
         jobs.append(('cse', W.POOL_QUICK[:4], 'NoData', ('-',), seed, 5))
+        jobs.append(('twosheet', W.POOL_QUICK[:3], 'NoData', ('-',), seed, 5))
+        jobs.append(('twosheet', W.POOL_QUICK[:3], 'Loaded', ('json',), seed, 5))
         jobs.append(('range', W.POOL_QUICK[:3], 'Stored', ('-',), seed, 5, True))
         jobs.append(('range', [2], 'NoData', ('-',), seed, 5, False,
                      [[('A1', 5), ('A2', True), ('A3', None)], [('A3', 'a'), ('A1', 0)]]))
     else:
         for name in W.WORKBOOKS:
             for src in ('NoData', 'Stored', 'Loaded'):
+                if name == 'twosheet' and src == 'Stored':
+                    continue        # the stored-result writer patches one sheet only
                 jobs.append((name, W.POOL_QUICK, src,
                              ('yml', 'json', 'pkl') if src == 'Loaded' else ('-',),
                              seed, 5))
